@@ -5,5 +5,7 @@ CONSTANTS
   MaxEpochs = 2
   MaxSolvers = 2
   RunLengths <- RunLens
+  UserPwms <- NoUser
+  UserStates <- NoUser
 INVARIANT C12_Unguarded
 CHECK_DEADLOCK FALSE
